@@ -889,6 +889,11 @@ class MemorizedFunc(Logger):
             self._print_duration(duration)
         metadata = self._persist_input(duration, call_id, args, kwargs)
         if shelving:
+            if not self.store_backend.contains_item(call_id):
+                # The result could not be stored (see the warning of
+                # dump_item): a reference to the store would dangle, hand out
+                # the computed value itself.
+                return NotMemorizedResult(output), metadata
             return self._get_memorized_result(call_id, metadata), metadata
 
         if self.mmap_mode is not None:
